@@ -1,7 +1,7 @@
 /-
 Proofs/C08Spec — the caller-side half of the specification: `expected? ver call` is the firmware command that
 the ARGUMENTS of an API call denote (written with the documented conventions only: which argument is which
-field, the documented sign flip of the RPYT pitch, `yaw=None -> use current yaw`, spiral clamping, go_to without
+field, the documented sign flip of the RPYT pitch, the caller's own yaw rate for the legacy types, `yaw=None -> use current yaw`, spiral clamping, go_to without
 the `linear` flag before protocol version 8, base-station lists as bit sets), or `none` when some argument is not
 representable in its field (a float outside binary32, an int outside the field, thrust outside 0..65535,
 a fixed-point value outside int16, a base-station id outside 0..15).
@@ -56,17 +56,35 @@ def truth (n : Nat) : Bool := n != 0
 /-- little-endian bytes of a binary32 pattern (anchor payloads are given as bytes) -/
 def f32Bytes (b : Nat) : List UInt8 := leBytes 4 b
 
+/-- a Python int 0 (for which `-x` does not flip a sign bit: `-0 == 0`) -/
+def Num.isIntZero : Num → Bool
+  | .i v _ => v == 0
+  | .f _ _ => false
+
+/-- RPYT pitch on the wire: the documented sign flip of the caller's pitch.  Only for the Python *int* 0 there is no
+sign to flip (`-0 == 0`): the wire carries +0.0 where the float 0.0 gives -0.0 — the same number. -/
+def pitchWire? (p : Num) : Option Nat :=
+  if p.isIntZero then f32? p else (f32? p).map Fw.fneg
+
+/-- yaw rate the firmware uses for the LEGACY generic types (it negates what it receives, the client pre-negates):
+the caller's yaw rate bit for bit; only the Python *int* 0 arrives as -0.0 instead of +0.0 — the same number. -/
+def legacyYaw? (y : Num) : Option Nat :=
+  if y.isIntZero then (f32? y).map Fw.fneg else f32? y
+
 def expected? (ver : Int) : Call → Option Fw.Cmd
   | .setpoint xmode roll pitch mixRoll mixPitch yawrate thrust => do
     -- X-mode: the client-side rotation replaces roll/pitch by the mixed values; the pitch sign is flipped (legacy convention)
     let r := if xmode then mixRoll else roll
     let p := if xmode then mixPitch else pitch
-    pure (.rpyt (← f32? r) (Fw.fneg (← f32? p)) (← f32? yawrate) (← uint? 2 thrust))
+    pure (.rpyt (← f32? r) (← pitchWire? p) (← f32? yawrate) (← uint? 2 thrust))
   | .notifyStop ms => do pure (.notifySetpointsStop (← uint? 4 ms))
   | .stopSetpoint => some .stop
-  | .velocityWorld vx vy vz yawrate => do pure (.velocityWorld (← f32? vx) (← f32? vy) (← f32? vz) (← f32? yawrate))
-  | .zdistance roll pitch yawrate z => do pure (.zDistance (← f32? roll) (← f32? pitch) (← f32? yawrate) (← f32? z))
-  | .hover vx vy yawrate z => do pure (.hover (← f32? vx) (← f32? vy) (← f32? yawrate) (← f32? z))
+  | .velocityWorld vx vy vz yawrate => do
+    pure (.velocityWorld (← f32? vx) (← f32? vy) (← f32? vz) (← if ver ≤ 8 then legacyYaw? yawrate else f32? yawrate))
+  | .zdistance roll pitch yawrate z => do
+    pure (.zDistance (← f32? roll) (← f32? pitch) (← if ver ≤ 8 then legacyYaw? yawrate else f32? yawrate) (← f32? z))
+  | .hover vx vy yawrate z => do
+    pure (.hover (← f32? vx) (← f32? vy) (← if ver ≤ 8 then legacyYaw? yawrate else f32? yawrate) (← f32? z))
   | .fullState pos vel acc quat rates => do
     pure (.fullState (← fix16? pos.a) (← fix16? pos.b) (← fix16? pos.c) (← fix16? vel.a) (← fix16? vel.b) (← fix16? vel.c)
       (← fix16? acc.a) (← fix16? acc.b) (← fix16? acc.c) (← quat? quat) (← fix16? rates.a) (← fix16? rates.b) (← fix16? rates.c))
@@ -152,21 +170,10 @@ def expectedLpp? : Call → Option Fw.Lpp
   | .lopoMode _ mode => do pure (.mode (← uint? 1 mode))
   | _ => none
 
-/-- a Python int 0 (for which `-x` does not flip a sign bit: `-0 == 0`) -/
-def Num.isIntZero : Num → Bool
-  | .i v _ => v == 0
-  | .f _ _ => false
-
-/-- Side conditions of the decode theorem.
-* an argument that the code negates (`-pitch`, legacy `-yawrate`) is not the Python *int* 0: for it the wire
-  carries +0.0 where a float 0.0 gives -0.0 — the same number, another bit pattern (theorem `neg_int_zero`);
-* full state: the scaled magnitudes of the non-largest components of the normalised quaternion fit 9 bits
-  (a real-number fact about |q_i| <= 1/sqrt 2, property C13's side; the integer layout is proved here). -/
-def Call.Pre (ver : Int) : Call → Prop
-  | .setpoint xmode _ pitch _ mixPitch _ _ => (if xmode then mixPitch else pitch).isIntZero = false
-  | .velocityWorld _ _ _ yawrate => ver ≤ 8 → yawrate.isIntZero = false
-  | .zdistance _ _ yawrate _ => ver ≤ 8 → yawrate.isIntZero = false
-  | .hover _ _ yawrate _ => ver ≤ 8 → yawrate.isIntZero = false
+/-- Side condition of the decode theorem, for the full-state setpoint only: the scaled magnitudes of the non-largest
+components of the normalised quaternion fit 9 bits.  This is a real-number fact about |q_i| <= 1/sqrt 2 for the
+components that are not the largest of a unit quaternion (property C13's side); the integer layout is proved here. -/
+def Call.Pre (_ver : Int) : Call → Prop
   | .fullState _ _ _ quat _ => ∀ i, i < 4 → i ≠ iLargest quat → ∀ m : Nat, f64ToInt (quat.get i).t = .ok (m : Int) → m < 512
   | _ => True
 
